@@ -3,7 +3,8 @@
     python worker.py spec.json result.json
 
 spec = {"root": dir, "follow_imports": "normal"|"error"|"skip", "steps": [{"files": {rel: text}, "touch": [rel],
-        "clock": int}], "trace": bool, "targets": [rel]|null, "same_second": bool}
+        "clock": int, "recheck": bool}], "trace": bool, "targets": [rel]|null}
+("recheck": answer this step with `cmd_recheck` instead of `check`; only set when the file set is unchanged.)
 
 After every step: the real `dmypy_server.Server.check` (one Server for the whole history, in-process) and a fresh
 non-incremental `mypy.build.build` on the same files.  With "trace": the fine-grained propagation is observed
@@ -136,18 +137,87 @@ class Tracer:
         return fired
 
 
-def main() -> int:
-    spec = json.load(open(sys.argv[1]))
-    root = spec["root"]
-    os.makedirs(root, exist_ok=True)
-    os.chdir(root)
+def full_build(req: dict) -> dict:
+    """A fresh non-incremental build of the files as they are now (runs in the full-build child process)."""
     from mypy import build
-    from mypy.dmypy_server import Server
     from mypy.errors import CompileError
     from mypy.find_sources import create_source_list
     from mypy.fscache import FileSystemCache
     from mypy.options import Options
     from mypy.util import count_stats
+    fopt = Options()
+    fopt.cache_dir = os.devnull
+    fopt.show_traceback = True
+    fopt.local_partial_types = True       # the daemon forces it; give the full check the same flag
+    fopt.follow_imports = req.get("follow_imports", "normal")
+    fopt.error_summary = False
+    fopt.incremental = False
+    for k, v in req.get("flags", {}).items():
+        setattr(fopt, k, v)
+    msgs: list[str] = []
+    try:
+        fsrcs = create_source_list(req["targets"], fopt, FileSystemCache())
+        build.build(fsrcs, fopt, flush_errors=lambda f, m, s: msgs.extend(m), fscache=FileSystemCache())
+        _, n_notes, _ = count_stats(msgs)
+        return {"out": "".join(m + "\n" for m in msgs), "status": 1 if msgs and n_notes < len(msgs) else 0}
+    except CompileError as e:
+        allm = msgs + [m for m in e.messages if m not in msgs]    # streamed messages reach the callback first
+        return {"out": "".join(m + "\n" for m in allm), "status": 2, "blocker": True}
+    except BaseException as e:      # noqa
+        if isinstance(e, KeyboardInterrupt):
+            raise
+        return {"crash": type(e).__name__, "traceback": traceback.format_exc()[-3000:]}
+
+
+def full_server() -> int:
+    """Child process: one full build per request line; never shares interpreter state with the daemon."""
+    for line in sys.stdin:
+        line = line.strip()
+        if not line:
+            continue
+        res = full_build(json.loads(line))
+        sys.stdout.write("@@RESULT " + json.dumps(res) + "\n")
+        sys.stdout.flush()
+    return 0
+
+
+class FullClient:
+    def __init__(self, root: str) -> None:
+        import subprocess
+        self.p = subprocess.Popen([sys.executable, os.path.abspath(__file__), "--full-server"], cwd=root, stdin=subprocess.PIPE,
+                                  stdout=subprocess.PIPE, text=True, env=dict(os.environ))
+
+    def build(self, req: dict) -> dict:
+        assert self.p.stdin and self.p.stdout
+        self.p.stdin.write(json.dumps(req) + "\n")
+        self.p.stdin.flush()
+        while True:
+            line = self.p.stdout.readline()
+            if not line:
+                return {"crash": "full-build child died", "traceback": ""}
+            if line.startswith("@@RESULT "):
+                return json.loads(line[len("@@RESULT "):])
+
+    def close(self) -> None:
+        try:
+            if self.p.stdin:
+                self.p.stdin.close()
+            self.p.wait(timeout=20)
+        except Exception:
+            self.p.kill()
+
+
+def main() -> int:
+    if sys.argv[1] == "--full-server":
+        return full_server()
+    spec = json.load(open(sys.argv[1]))
+    root = spec["root"]
+    os.makedirs(root, exist_ok=True)
+    os.chdir(root)
+    from mypy.dmypy_server import Server
+    from mypy.find_sources import create_source_list
+    from mypy.fscache import FileSystemCache
+    from mypy.options import Options
 
     def options(fine: bool) -> Options:
         o = Options()
@@ -168,6 +238,7 @@ def main() -> int:
     tracer = Tracer() if spec.get("trace") else None
     dopt = options(True)
     server = Server(dopt, os.path.join(os.path.dirname(root), "status-%d.json" % os.getpid()))
+    full = FullClient(root)
     targets = spec.get("targets") or ["."]
     out_steps = []
     dead = False
@@ -178,8 +249,12 @@ def main() -> int:
         # ---- daemon
         if not dead:
             try:
-                srcs = create_source_list(tg, dopt, FileSystemCache())
-                r = server.check(srcs, export_types=False, is_tty=False, terminal_width=80)
+                if step.get("recheck") and server.fine_grained_manager is not None:
+                    # `dmypy recheck`: same list of files as the previous request
+                    r = server.cmd_recheck(is_tty=False, terminal_width=80, export_types=False)
+                else:
+                    srcs = create_source_list(tg, dopt, FileSystemCache())
+                    r = server.check(srcs, export_types=False, is_tty=False, terminal_width=80)
                 res["daemon"] = {"out": r.get("out", ""), "err": r.get("err", ""), "status": r.get("status")}
                 fg = server.fine_grained_manager
                 if fg is not None:
@@ -196,22 +271,10 @@ def main() -> int:
                 res["trace"] = tracer.take()
         else:
             res["daemon"] = {"dead": True}
-        # ---- full, non-incremental
-        fopt = options(False)
-        msgs: list[str] = []
-        try:
-            fsrcs = create_source_list(tg, fopt, FileSystemCache())
-            build.build(fsrcs, fopt, flush_errors=lambda f, m, s: msgs.extend(m), fscache=FileSystemCache())
-            _, n_notes, _ = count_stats(msgs)
-            res["full"] = {"out": "".join(m + "\n" for m in msgs), "status": 1 if msgs and n_notes < len(msgs) else 0}
-        except CompileError as e:
-            allm = msgs + [m for m in e.messages if m not in msgs]    # streamed messages reach the callback first
-            res["full"] = {"out": "".join(m + "\n" for m in allm), "status": 2, "blocker": True}
-        except BaseException as e:      # noqa
-            if isinstance(e, KeyboardInterrupt):
-                raise
-            res["full"] = {"crash": type(e).__name__, "traceback": traceback.format_exc()[-3000:]}
+        # ---- full, non-incremental, in another process (the daemon's interpreter state is never shared)
+        res["full"] = full.build({"targets": tg, "follow_imports": spec.get("follow_imports", "normal"), "flags": spec.get("flags", {})})
         out_steps.append(res)
+    full.close()
     with open(sys.argv[2], "w") as f:
         json.dump({"steps": out_steps}, f)
     return 0
